@@ -39,7 +39,8 @@ def parseKVs (s : String) : KVs :=
     match e.splitOn "~" with
     | [k, v] =>
       if v = "" then none
-      else if v.startsWith "s" then some (k, Val.str (dropS v 1)) else some (k, Val.other)
+      else if v.startsWith "s" then some (k, Val.str (dropS v 1))
+      else if v.startsWith "n" then some (k, Val.null) else some (k, Val.other)
     | _ => none
 
 def parseParam (ws : List String) : Param :=
